@@ -19,4 +19,27 @@ def search(prop, violations):
         return {'session': sess[2], 'observed': outs[2], 'demanded': 'OK 3', 'kind': 'an evaluation after failures differs'}
     if frames(outs[3]) != frames(outs[4]):
         return {'session': sess[3], 'observed': outs[3], 'demanded': outs[4], 'kind': 'stack trace depth grows with earlier failed evaluations'}
+    # definitions and mutations the failed form did NOT complete are not performed; the ones it completed stay
+    kw = "(define-syntax kw (syntax-rules () ((_ e) (quote e))))"
+    sess2 = ["(define x 10);;(begin (set! x (+ x 1)) (car '()) (set! x 100));;x",
+             "(kw a)",
+             "(begin (car '()) %s);;(kw a)" % kw,          # run-time failure before the definition is reached
+             "(begin %s (if));;(kw a)" % kw,               # the form does not compile: nothing of it ran
+             "(define (h) (car '()) %s 1);;(h);;(kw a)" % kw]
+    outs2 = replay.run_sessions(sess2)
+    if outs2[0] != 'OK 11':
+        return {'session': sess2[0], 'observed': outs2[0], 'demanded': 'OK 11', 'kind': 'effects of a failed form: completed ones stay, later ones are not performed'}
+    for s, o in list(zip(sess2, outs2))[2:]:
+        if o != outs2[1]:
+            return {'session': s, 'observed': o, 'demanded': outs2[1] + ' (what a VM that never saw the definition answers)', 'kind': 'a definition the failed form never executed is visible afterwards'}
+    # "repeated failures do not accumulate stack depth or memory": 1000 failures of each kind, then the same probe as a fresh VM
+    def slots(o):
+        m = re.search(r'stack-slots=Some\((\d+)\)', o)
+        return int(m.group(1)) if m else None
+    probe = "#trace (car 5)"
+    sess3 = [probe] + [";;".join([bad] * 1000) + ";;" + probe for bad in ("(if)", "(car 5)", "undefined-variable", "((lambda (x) x))", "(vector-ref (vector) 0)")]
+    outs3 = replay.run_sessions(sess3)
+    for s, o in list(zip(sess3, outs3))[1:]:
+        if slots(o) != slots(outs3[0]) or frames(o) != frames(outs3[0]):
+            return {'session': s, 'observed': o, 'demanded': outs3[0] + ' (the same probe in a fresh VM)', 'kind': 'stack capacity / trace depth grows with repeated failures'}
     return None
